@@ -80,13 +80,15 @@ static void actors_spawn(world_t *w, actor_t *a, int n, const int *kinds,
 
 static void actors_join(actor_t *a, int n, task_stream_t *ts)
 {
-    for (int i = 0; i < n; i++) {
-        if (a[i].kind == ACT_EXT) {
-            pthread_join(a[i].pt, NULL);
-        } else {
+    /* Work units first: joining them keeps the caller's stream scheduling.
+     * pthread_join() blocks the caller's OS thread, so externals are joined
+     * only when no work unit can still need this stream. */
+    for (int i = 0; i < n; i++)
+        if (a[i].kind != ACT_EXT)
             VRT_ABT(ABT_thread_free(&a[i].th));
-        }
-    }
+    for (int i = 0; i < n; i++)
+        if (a[i].kind == ACT_EXT)
+            pthread_join(a[i].pt, NULL);
     if (ts->active) {
         VRT_ABT(ABT_xstream_join(ts->xs));
         VRT_ABT(ABT_xstream_free(&ts->xs));
